@@ -43,6 +43,19 @@ template <> bool GlobalTable<Payload>::CopyObject(Payload& dst, const Payload& s
 }
 }  // namespace mujoco
 using Table = mujoco::GlobalTable<Payload>;
+// a second table of another object type, as the engine has four (plugins, resource providers, decoders, encoders): a thread may register in one
+// table while it holds the exclusive section of another (mj_loadAllPluginLibraries holds the plugin table's while the loaded library's
+// initialiser registers, e.g., a resource provider)
+struct Other { char key[8]; };
+namespace mujoco {
+template <> const char* GlobalTable<Other>::HumanReadableTypeName() { return "other"; }
+template <> std::string_view GlobalTable<Other>::ObjectKey(const Other& p) { return std::string_view(p.key, strnlen(p.key, sizeof p.key)); }
+template <> bool GlobalTable<Other>::ObjectEqual(const Other& a, const Other& b) { return !memcmp(a.key, b.key, sizeof a.key); }
+template <> bool GlobalTable<Other>::CopyObject(Other& dst, const Other& src, ErrorMessage& err) { dst = src; return true; }
+}  // namespace mujoco
+using OtherTable = mujoco::GlobalTable<Other>;
+static OtherTable* g_other;
+static int g_holder = -1;   // per run: the thread that performs its operations inside the other table's exclusive section (-1: none)
 
 // ------------------------------------------------------------------------------------ error capture
 static thread_local jmp_buf* tl_jmp = nullptr;
@@ -80,7 +93,12 @@ static void check_obj(const Payload* p, const char* how) {
   if (!c.key[0]) violation("partial-object", "%s returned an object with an empty key", how);
   if (pay_sum(c) != c.sum) violation("partial-object", "%s returned a partially copied object (key %s)", how, c.key);
 }
+static void run_thread_table_ops(int t, ThreadPlan* tp);
 static void run_thread_table(int t, ThreadPlan* tp) {
+  if (t == g_holder) { auto lock = g_other->LockExclusively(); vsim::note(9, t); run_thread_table_ops(t, tp); }
+  else run_thread_table_ops(t, tp);
+}
+static void run_thread_table_ops(int t, ThreadPlan* tp) {
   for (auto& op : tp->ops) {
     Obs o{}; o.thread = t; o.op = op; o.slot = -1;
     o.inv = vsim::seq();
@@ -260,6 +278,11 @@ static void run_table(uint64_t seed) {
   // blocks allocated by previous runs are leaked on purpose (the table never frees)
   memset(mem, 0, sizeof(Table));
   g_tab = new (mem) Table();
+  static void* mem2 = aligned_alloc(256, sizeof(OtherTable) + 256);
+  memset(mem2, 0, sizeof(OtherTable));
+  g_other = new (mem2) OtherTable();
+  g_holder = r.chance(0.3) ? (int)r.below(s.nthreads) : -1;
+  if (g_holder >= 0) { g_scenario += " [thread " + std::to_string(g_holder) + " inside another table's exclusive section]"; }
   run_begin(seed, cfg);
   for (int k = 0; k < s.prepop; k++) {
     Payload p = make_payload(keyname[k], k);
@@ -275,6 +298,7 @@ static void run_table(uint64_t seed) {
   bool crossed = s.prepop <= 15 && g_tab->count() > 15;
   run_end();
   if (crossed) probe("block_boundary_crossed_concurrently");
+  if (g_holder >= 0) probe("runs_with_a_thread_inside_another_tables_lock");
   if (g_tab->count() > 30) probe("third_block_reached");
   for (auto& tp : s.plans) for (auto& o : tp.obs) {
     if (o.op.kind == O_REG_CONFLICT && o.error) probe("conflict_rejected");
@@ -445,6 +469,29 @@ static void run_api(uint64_t seed) {
   for (int k = 0; k < s.prepop; k++) { newk.erase(k); newp.erase(k); }
   if (n != base_plugins + s.prepop + (int)newk.size()) violation("count-mismatch", "final plugin count %d, expected %d", n, base_plugins + s.prepop + (int)newk.size());
   if (np != base_providers + s.prepop + (int)newp.size()) violation("count-mismatch", "final provider count %d, expected %d", np, base_providers + s.prepop + (int)newp.size());
+  // sequential history on the decoder table (1-24 content types, i.e. across the first block boundary); in some runs one of the
+  // registrations carries an empty content type: it may be refused, but it must not make the decoders registered after it unfindable
+  {
+    Rng rd(seed ^ 0xDEC0DE5ULL);
+    int nd = rd.range(1, 24), empty_at = rd.chance(0.3) ? rd.below(nd) : -1;
+    static char ct[24][40];
+    mjResource res{}; char rname[] = "file.c40none"; res.name = rname;
+    for (int i = 0; i < nd; i++) {
+      snprintf(ct[i], sizeof ct[i], "text/c40k%d", i);
+      mjpDecoder dc{}; dc.content_type = i == empty_at ? "" : ct[i]; dc.extension = nullptr; dc.can_decode = dec_can; dc.decode = dec_decode;
+      bool err = false; jmp_buf jb; tl_jmp = &jb;
+      if (setjmp(jb)) err = true; else mjp_registerDecoder(&dc);
+      tl_jmp = nullptr;
+      if (err && i != empty_at) violation("spurious-failure", "registration of a decoder for %s failed: %s", ct[i], tl_err);
+    }
+    for (int i = 0; i < nd; i++) {
+      if (i == empty_at) continue;
+      const mjpDecoder* f = mjp_findDecoder(&res, ct[i]);
+      if (!f) violation("lost-object", "the decoder registered for content type %s (number %d of %d) cannot be found%s", ct[i], i, nd, empty_at >= 0 && empty_at < i ? "; a decoder with an empty content type was registered before it" : "");
+      else if (!f->content_type || strcmp(f->content_type, ct[i])) violation("wrong-object", "lookup of the decoder for %s returned the one for %s", ct[i], f->content_type ? f->content_type : "(null)");
+    }
+    probe("sequential_decoder_histories"); if (empty_at >= 0) probe("decoder_histories_with_an_empty_content_type");
+  }
   run_end();
 }
 
